@@ -4,7 +4,6 @@ import os, json, re
 ROOT = os.path.dirname(os.path.dirname(os.path.abspath(__file__)))
 sd = os.path.join(ROOT, 'seeded')
 WHY_MISSED = {
-    'C10-h': 'adds a data member to detail::parse_state and uses it in shift(): the lowering keeps parse_state\'s members as a fixed list of globals (and pins the constructor\'s initializer list as a fact), so the text no longer lowers: UNDECIDED (exit 2), not a verdict',
     'C16-g': 'adds a range-for inside dfa_match\'s matching loop: a new nested loop has no loop contract, goto-instrument refuses the function: UNDECIDED (exit 2), not a verdict',
     'C17-h': 'the change is in the rule list of the regex grammar (`number(regex_digit_09)` -> `number()`), i.e. in DSL data, not in a function: that the regex grammar refuses `a{}` is C01 applied to that grammar, not mechanised; the rule list is pinned as a pattern fact, so the check answers UNDECIDED (exit 2), not OK',
     'C14-b': 'the change is in the parameter list of the helper functor ftors::emplace_back (`Arg&&` -> `const Arg&`, so the std::move in its body copies): signature-level template machinery (C19 territory), outside the extraction',
